@@ -493,15 +493,27 @@ class Sym:
     def __rsub__(self, o):
         return self._bin(o, lambda a, b: a - b, np.subtract, True)
 
+    @staticmethod
+    def _mul(a, b):
+        if _PRODUCTS[0] and not isinstance(a, SymC) and not isinstance(b, SymC):
+            # abstract_division(products=True) also abstracts symbolic*symbolic products (keeps queries linear + UF)
+            if _const_value(z3.simplify(a)) is None and _const_value(z3.simplify(b)) is None:
+                if _is_int_term(a):
+                    a = z3.ToReal(a)
+                if _is_int_term(b):
+                    b = z3.ToReal(b)
+                return uninterpreted('mul', 2)(a, b)
+        return a * b
+
     def __mul__(self, o):
         if isinstance(o, SymBool):
             return o * self
-        return self._bin(o, lambda a, b: a * b, np.multiply)
+        return self._bin(o, Sym._mul, np.multiply)
 
     def __rmul__(self, o):
         if isinstance(o, SymBool):
             return o * self
-        return self._bin(o, lambda a, b: a * b, np.multiply, True)
+        return self._bin(o, Sym._mul, np.multiply, True)
 
     @staticmethod
     def _div(a, b):
@@ -718,18 +730,23 @@ class Sym:
 
 _UF = {}
 _DIVISION = ['real']
+_PRODUCTS = [False]
 
 
 class abstract_division:
     """context manager: division by a symbolic term becomes multiplication with an
     uninterpreted reciprocal (sound over-approximation when *proving* a claim)"""
 
+    def __init__(self, products=False):
+        self.products = products
+
     def __enter__(self):
-        self.old = _DIVISION[0]
+        self.old = (_DIVISION[0], _PRODUCTS[0])
         _DIVISION[0] = 'uf'
+        _PRODUCTS[0] = self.products
 
     def __exit__(self, *a):
-        _DIVISION[0] = self.old
+        _DIVISION[0], _PRODUCTS[0] = self.old
 
 
 def uninterpreted(name, arity=1):
@@ -1953,6 +1970,14 @@ class NpProxy:
             return _sum(a if isinstance(a, np.ndarray) else self.array(a), axis)
         return np.sum(a, axis=axis, **kw)
 
+    def outer(self, a, b, out=None):
+        if out is not None:
+            return np.outer(a, b, out=out)
+        r = np.outer(_obj(a) if _deep_has_sym(a) else a, _obj(b) if _deep_has_sym(b) else b)
+        if self._widen and r.dtype.kind in 'fc':
+            r = r.astype(object)          # the Hessian stencils use this product as their output buffer
+        return r.view(SymArr) if r.dtype == object else r
+
     def dot(self, a, b, **kw):
         if _contains_sym_arg((a, b), {}):
             r = np.dot(_obj(a), _obj(b))
@@ -1985,7 +2010,10 @@ def _build_object_array(obj):
         shp = parts[0].shape
         out = np.empty((len(parts),) + shp, dtype=object)
         for i, p in enumerate(parts):
-            out[i] = p
+            if shp == ():
+                out[i] = p[()]
+            else:
+                out[i] = p
         return out
     o = np.empty((), dtype=object)
     o[()] = obj
